@@ -129,24 +129,36 @@ def forms_in_rotated_basis(cx, N, nb, plane):
 
 
 @harness("C07", "td_limits",
-         quick=[dict(N=2, nb=1), dict(N=2, nb=2)], thorough=[dict(N=2, nb=1), dict(N=2, nb=2), dict(N=3, nb=2)],
+         quick=[dict(N=2, nb=1), dict(N=2, nb=2), dict(N=2, nb=1, cutoff=4.0), dict(N=2, nb=2, cutoff=5.0, ops=True)],
+         thorough=[dict(N=2, nb=1), dict(N=2, nb=2), dict(N=3, nb=2)] +
+                  [dict(N=2, nb=b, cutoff=c, ops=o) for b in (1, 2) for c in (4.0, 5.0, 6.0) for o in (False, True)],
          functions=[F_TDR + ":TDRedfieldRelaxationTensor._implementation",
                     F_RED + ":RedfieldRelaxationTensor._implementation",
                     F_RED + ":RedfieldRelaxationTensor._guts_Cmplx_Splines"],
          bound="N=2 (thorough 3), <=2 baths, 4 bath time points; H, K_m real symmetric symbolic; the running spline "
                "integral is an uninterpreted function of the integrand terms with A[0]=0 (so the time-dependent "
-               "tensor's last value and the time-independent tensor are the same integral of the same integrand)",
+               "tensor's last value and the time-independent tensor are the same integral of the same integrand); with "
+               "cutoff: both tensors constructed with the same cutoff_time inside the bath axis (7 points; at least 4 "
+               "points up to the cut-off, as the spline needs), tensor and operator (Lambda) form",
          out="value of the integrals; agreement with the analytic pure-dephasing solution exp(-i w t - g(t))")
-def td_limits(cx, N, nb):
+def td_limits(cx, N, nb, cutoff=None, ops=False):
     from quantarhei.qm import RedfieldRelaxationTensor, TDRedfieldRelaxationTensor
-    ham, sbi, time = build_sbi(cx, N, nb, Nt=4)
+    ham, sbi, time = build_sbi(cx, N, nb, Nt=4 if cutoff is None else 7)
     set_symmetric_hamiltonian(cx, ham)
     set_symmetric_K(cx, sbi, N)
     if cx.sym:
         from symnum import linalg
         linalg.use_eigh(eigen_equation=False)
-    TD = TDRedfieldRelaxationTensor(ham, sbi)
-    TI = RedfieldRelaxationTensor(ham, sbi)
+    kw = {} if cutoff is None else dict(cutoff_time=cutoff)
+    if ops:
+        TD = TDRedfieldRelaxationTensor(ham, sbi, as_operators=True, **kw)
+        TI = RedfieldRelaxationTensor(ham, sbi, as_operators=True, **kw)
+        Lt = numpy.asarray(TD.Lm)
+        cx.prove_eq("operators_zero_at_t0", Lt[0], numpy.zeros(Lt[0].shape, dtype=int), tol=1e-9)
+        cx.prove_eq("last_operators_equal_time_independent", Lt[Lt.shape[0] - 1], numpy.asarray(TI._Lm), tol=1e-7)
+        return
+    TD = TDRedfieldRelaxationTensor(ham, sbi, **kw)
+    TI = RedfieldRelaxationTensor(ham, sbi, **kw)
     Nt = TD._data.shape[0]
     cx.prove_eq("zero_at_t0", TD._data[0], numpy.zeros(TD._data[0].shape, dtype=int), tol=1e-9)
     cx.prove_eq("last_equals_time_independent", TD._data[Nt - 1], TI._data, tol=1e-7)
@@ -252,3 +264,42 @@ def td_sampling(cx, step, Nref):
             ref = taylor(tensor_gen(H, data[min(idx, Ntb - 1)]), ref, dt, 2)
             q += 1
         cx.prove_eq("sampled[%d]" % i, pr.data[i], ref, tol=1e-7)
+
+
+@harness("C07", "convert_in_context",
+         quick=[dict(cls="redfield", N=2, nb=1), dict(cls="lindblad", N=2, nb=2)],
+         thorough=[dict(cls=c, N=n, nb=b) for c in ("redfield", "lindblad") for (n, b) in ((2, 1), (2, 2), (3, 2))],
+         functions=[F_RED + ":RedfieldRelaxationTensor.convert_2_tensor",
+                    F_RED + ":RedfieldRelaxationTensor._convert_operators_2_tensor",
+                    "quantarhei/core/managers.py:eigenbasis_of.__enter__", "quantarhei/core/managers.py:eigenbasis_of.__exit__"],
+         bound="N=2 (thorough 3), <=2 bath/Lindblad operators: a tensor born in operator form whose FIRST access "
+               "inside eigenbasis_of(H) (H given by its eigen-decomposition) is convert_2_tensor() equals, inside the "
+               "context and after leaving it, the tensor-born twin; both act identically on an arbitrary operator",
+         out="time-dependent classes (their convert_2_tensor is checked outside contexts above)")
+def convert_in_context(cx, cls, N, nb):
+    import quantarhei as qr
+    from quantarhei.qm import RedfieldRelaxationTensor, LindbladForm
+    from harness.common import spectral_hamiltonian
+    ham, sbi, time = build_sbi(cx, N, nb, Nt=4)
+    H, w, S = spectral_hamiltonian(cx, N)
+    ham._data = H.copy()
+    if cls == "redfield":
+        set_symmetric_K(cx, sbi, N)
+        A = RedfieldRelaxationTensor(ham, sbi, as_operators=True)
+        B = RedfieldRelaxationTensor(ham, sbi, as_operators=False)
+    else:
+        KK = cx.real_array("Lop", (nb, N, N))
+        sbi.KK = KK
+        sbi.rates = [cx.real("rate%d" % k, 0.001, 0.1) for k in range(nb)]
+        A = LindbladForm(ham, sbi, as_operators=True)
+        B = LindbladForm(ham, sbi, as_operators=False)
+    rho = cx.hermitian("X", N)
+    with cx.concrete():
+        op = qr.qm.ReducedDensityMatrix(dim=N)
+    op._data = rho.copy()
+    with qr.eigenbasis_of(ham):
+        A.convert_2_tensor()
+        cx.prove_eq("inside/converted_equals_tensor_born", A.data, B.data, tol=1e-7)
+        cx.prove_eq("inside/same_action", numpy.tensordot(A.data, op.data), numpy.tensordot(B.data, op.data), tol=1e-7)
+    cx.prove_eq("after/converted_equals_tensor_born", A._data, B._data, tol=1e-7)
+    cx.prove("after/is_tensor", A.as_operators is False)
